@@ -2,6 +2,7 @@ package main
 
 import (
 	"fmt"
+	"strings"
 
 	"verif/sim/simcore"
 )
@@ -149,6 +150,10 @@ func genCount(r *simcore.RNG, tier string) int {
 	}
 }
 
+// output file names a user might choose
+var fileNames = []string{"", "", "", "", "a b c.EXT", "ünï-çødé.EXT", "UPPER.EXT", "noext", "two.dots.v1.2.EXT", "100%d%s%v.EXT", ".hidden.EXT", "-dash.EXT",
+	"long-" + strings.Repeat("x", 180) + ".EXT", "file.EXT.bak", "sub dir name.EXT"}
+
 // consumer-side hook sites of a sink
 func sinkSites(sink string) []string {
 	switch sink {
@@ -212,6 +217,9 @@ func scriptJob(r *simcore.RNG, id int, tier string, sinks []string, n int, style
 	}
 	style := pick(r, styles)
 	j := Job{ID: id, Kind: kind, Sink: sink, N: n, Batches: genPartition(r, n, p, style), Coords: "index"}
+	if sink != "tri" {
+		j.Name = pick(r, fileNames)
+	}
 	if r.Intn(4) == 0 {
 		// arbitrary geometry instead of numbered items: slivers, near-duplicate and
 		// shared vertices, duplicates (the multiset oracle counts multiplicities)
